@@ -26,14 +26,14 @@ theorem get?_set (c : Env) (k x : String) (v : V) :
   | cons p rest ih =>
     obtain ⟨k', v'⟩ := p
     simp only [set]
-    split
-    · rename_i h; subst h
-      simp only [get?_cons]
-    · rename_i h
-      simp only [get?_cons, ih]
-      split
-      · rename_i h2; subst h2; simp [h]
-      · rfl
+    by_cases h : k' = k
+    · subst h
+      simp only [if_true, get?_cons]
+      split <;> rfl
+    · simp only [h, if_false, get?_cons, ih]
+      by_cases h2 : k' = x
+      · subst h2; simp [Ne.symm h]
+      · simp [h2]
 
 theorem get?_set_same (c : Env) (k : String) (v : V) : get? (set c k v) k = some v := by
   simp [get?_set]
@@ -70,6 +70,8 @@ theorem get?_update (c kvs : Env) (k : String) :
     obtain ⟨k', v'⟩ := p
     rw [update_cons, ih, List.reverse_cons, get?_append, orElse_assoc, get?_set]
     congr 1
+    simp only [get?_cons, get?_nil]
+    split <;> rfl
 
 theorem get?_eq_none_iff (c : Env) (k : String) : get? c k = Option.none ↔ k ∉ keys c := by
   induction c with
@@ -115,7 +117,7 @@ theorem keys_set (c : Env) (k : String) (v : V) :
       simp only [keys, List.map_cons, ih, List.mem_cons]
       have : ¬ k = k' := fun h2 => h h2.symm
       simp only [this, false_or]
-      split <;> simp
+      split <;> simp_all
 
 theorem keys_set_prefix (c : Env) (k : String) (v : V) : keys c <+: keys (set c k v) := by
   rw [keys_set]; split
